@@ -71,14 +71,14 @@ NCols(rows) == IF rows = <<>> THEN 0 ELSE Len(rows[1])
 
 \* NULL rule: a cell becomes NaN iff it is numerically equal to ~W NULL, lies in a non-index numeric column, policy strict
 TextCol(rows, c) == \E r \in DOMAIN rows : rows[r][c].cls = "TEXT"
-\* result encoding of a cell: -1 NaN; a FIN cell its id; a kept NULL-equal cell -2; a kept near-NULL cell -3; text 1000 + id
+\* result encoding of a cell: -1 NaN; a FIN cell its id; a kept NULL-equal cell -2; a kept near-NULL cell -3; text 1000000 + id
 CellOut(rows, r, c, o, hasNull) ==
     IF rows[r][c].cls = "NULLEQ" /\ c > 1 /\ o.null_policy = "strict" /\ hasNull /\ ~TextCol(rows, c)
     THEN -1
     ELSE CASE rows[r][c].cls = "FIN" -> rows[r][c].id
            [] rows[r][c].cls = "NULLEQ" -> -2
            [] rows[r][c].cls = "NEAR" -> -3
-           [] rows[r][c].cls = "TEXT" -> 1000 + rows[r][c].id
+           [] rows[r][c].cls = "TEXT" -> 1000000 + rows[r][c].id
 \* curves: declared first (with their names), surplus columns unnamed after them, missing columns NaN of the common length
 Curves(text, o) ==
     LET rows == Rows(text)  dcl == Declared(text)  d == Len(dcl)  c == NCols(rows)
